@@ -15,6 +15,10 @@ import CpModel.UrlEncReq
   know keyword-only parameters nor which parameters are positional-only; it strips the first name of
   `args` whenever `args` is non-empty (also for a plain function, which has no `self`); a `defaults`
   tuple longer than the stripped `args` makes its own loop raise IndexError.
+  Repaired in /repo (172eec3): `test_callable_spec` remembers the bound first argument it strips and answers
+  404 / 400 to a request parameter of that name (`?self=1` used to end in 500 on every method handler).  The
+  model takes this as the flag `fix`; the driver reads it from the table probed on the live function on every
+  run (`Gen.C03.specChecksBoundArg`), so a tree without the repair still compares.
   Not modelled: handlers whose body raises TypeError itself, `handler.kwargs` set by a dispatcher,
   `request.show_mismatched_params` (message text only).
 -/
@@ -67,9 +71,21 @@ def pyCallOk (s : Sig) (nargs : Nat) (keys : List Text) : Bool :=
 /-- `args` as `test_callable_spec` sees them after "Strip 'self'". -/
 def specArgs (s : Sig) : List Text := ((s.self?.map (·.1)).toList ++ s.params).drop 1
 
+/-- `bound_arg in callable_kwargs`: the name of the bound first argument is one of the request's keys. -/
+def selfKeyed (s : Sig) (keys : List Text) : Bool :=
+  match s.self? with
+  | some sn => keys.contains sn.1
+  | none => false
+
+/-- `bound_arg in qs_params`: … and that key did not come with the body. -/
+def selfKeyFromQs (s : Sig) (kwargs : List (Text × Bool)) : Bool :=
+  match s.self? with
+  | some sn => kwargs.any (fun kb => kb.1 = sn.1 && !kb.2)
+  | none => false
+
 /-- `test_callable_spec(callable, args, kwargs)`; `kwargs` = (key, key ∈ `request.body.params`).
     `some code` = HTTPError(code); `none` = it returns (or raises something else): the TypeError stands. -/
-def specCheck (s : Sig) (nargs : Nat) (kwargs : List (Text × Bool)) : Option Nat :=
+def specCheck (fix : Bool) (s : Sig) (nargs : Nat) (kwargs : List (Text × Bool)) : Option Nat :=
   let args := specArgs s
   let keys := kwargs.map (·.1)
   let isQs (k : Text) : Bool := kwargs.any (fun kb => kb.1 = k && !kb.2)
@@ -77,6 +93,9 @@ def specCheck (s : Sig) (nargs : Nat) (kwargs : List (Text × Bool)) : Option Na
   else if args.zipIdx.any (fun ni => !(ni.2 < nargs) && !keys.contains ni.1 && !(args.length - s.defaults ≤ ni.2))
   then some 404                                              -- missing_args
   else if !s.varargs && args.length < nargs then some 404    -- too many path atoms
+  else if fix && selfKeyed s keys then
+    -- repaired: a parameter named like the bound first argument is an unexpected parameter
+    (if selfKeyFromQs s kwargs then some 404 else some 400)
   else
     let multiple := (args.zipIdx.filter (fun ni => ni.2 < nargs && keys.contains ni.1)).map (·.1)
     if !multiple.isEmpty then (if multiple.any isQs then some 404 else some 400)
@@ -94,10 +113,10 @@ inductive Decision where
   deriving DecidableEq, Repr
 
 /-- `PageHandler.__call__`. -/
-def bindDecision (s : Sig) (nargs : Nat) (kwargs : List (Text × Bool)) : Decision :=
+def bindDecision (fix : Bool) (s : Sig) (nargs : Nat) (kwargs : List (Text × Bool)) : Decision :=
   if pyCallOk s nargs (kwargs.map (·.1)) then .call
   else
-    match specCheck s nargs kwargs with
+    match specCheck fix s nargs kwargs with
     | some c => .status c
     | none => .status 500
 
@@ -110,7 +129,7 @@ def lateKwargs (params : Params) (late : List (Text × Text)) : Params :=
 
 /-- The whole request with a handler of signature `s` reached with `nargs` path atoms; `late` = what tools
     assign to `request.params` / `handler.kwargs` between dispatch and the call. -/
-def respond (r : ReqX) (s : Sig) (nargs : Nat) (late : List (Text × Text) := []) : Outcome :=
+def respond (fix : Bool) (r : ReqX) (s : Sig) (nargs : Nat) (late : List (Text × Text) := []) : Outcome :=
   match handleX r with
   | .status c => .status c
   | .handler kw0 =>
@@ -119,7 +138,7 @@ def respond (r : ReqX) (s : Sig) (nargs : Nat) (late : List (Text × Text) := []
       match processBody r with
       | .params bp => bp.map (·.1)
       | _ => []
-    match bindDecision s nargs (kw.map fun kv => (kv.1, bodyKeys.contains kv.1)) with
+    match bindDecision fix s nargs (kw.map fun kv => (kv.1, bodyKeys.contains kv.1)) with
     | .call => .handler kw
     | .status c => .status c
 
